@@ -18,6 +18,10 @@ RULE = ("event streams of 0-6 blocks: optional id (also empty, with NUL), event 
         "chosen per line (uniform or mixed), streams end with or without the final blank line, possibly on a lone "
         "CR; delivered plain to EventSource, or to Respondent as a close-delimited or chunked (random chunk "
         "boundaries) text/event-stream response; reads: random cuts, every byte, inside every CRLF, whole.  "
+        "Histories: one Respondent over 1-4 consecutive event-stream responses (chunked or close-delimited, complete "
+        "or dropped mid-stream / mid-chunk), started with a remembered Last-Event-ID / retry or none, resumed streams "
+        "beginning with id-less chunks (comments, data-only events, retry, NUL ids), (.leid, .retry) observed after "
+        "every read and compared with the last id/retry field seen so far on any connection.  "
         "Non-trivial: >= 2 events, >= 2 terminator kinds and >= 1 cut between the CR and LF of a CRLF")
 MODELLED = ["UTF-8 decoding (events are compared as UTF-8 bytes; generated streams are valid UTF-8)",
             "int() of an ASCII digit string up to 4300 digits (as decimal value)",
@@ -86,45 +90,68 @@ def run_plain(reads):
     return {"events": _events(es.events), "leid": es.leid, "retry": es.retry, "err": err, "left": h(es.raw)}
 
 
-def run_respondent(head, reads, close):
+def run_history(init, conns):
+    """One Respondent for the whole history, as Client keeps it: per connection a text/event-stream response
+    (fresh EventSource), reads fed one by one with (.leid, .retry) recorded after each, then the connection drops:
+    close(), parse(), makeParser(), reinit() (what Client.service / transmit do on a reconnect)."""
     from hio.core.http import clienting
-    p = clienting.Respondent(msg=bytearray(), method="GET")
-    err = None
+    msg = bytearray()
+    p = clienting.Respondent(msg=msg, method="GET")
+    if init:
+        if init.get("leid") is not None:
+            p.leid = init["leid"]           # the remembered Last-Event-ID
+        if init.get("retry") is not None:
+            p.retry = init["retry"]
+    out = []
+    for conn in conns:
+        err = None
 
-    def pump():
-        nonlocal err
-        if err or p.parser is None:
-            return
-        try:
-            p.parse()
-        except Exception as ex:  # noqa
-            err = exn_kind(ex)
-            return
-        if p.parser is None and p.errored:
-            err = "HTTPExc"
+        def pump():
+            nonlocal err
+            if err or p.parser is None:
+                return
+            try:
+                p.parse()
+            except Exception as ex:  # noqa
+                err = exn_kind(ex)
+                return
+            if p.parser is None and p.errored:
+                err = "HTTPExc"
 
-    p.msg.extend(head)
-    pump()
-    for frag in reads:
-        p.msg.extend(frag)
+        start = [p.leid, p.retry]
+        msg.extend(HEAD_CHUNKED if conn["mode"] == "chunked" else HEAD_UNTIL)
         pump()
-    if close:
+        trace = []
+        for frag in conn["reads"]:
+            msg.extend(frag)
+            pump()
+            trace.append([p.leid, p.retry])
+        es = p.eventSource
+        o = {"events": _events(p.events), "leid": es.leid, "retry": es.retry, "left": h(es.raw),
+             "init": start, "trace": trace, "err": err}
+        # the connection drops
         p.close()
         pump()
-    es = p.eventSource
-    return {"events": _events(p.events), "leid": es.leid, "retry": es.retry, "err": err, "left": h(es.raw),
-            "resp_leid": p.leid, "resp_retry": p.retry, "ended": bool(p.ended)}
+        o["close_err"] = err
+        o["resp_leid"], o["resp_retry"], o["ended"] = p.leid, p.retry, bool(p.ended)
+        out.append(o)
+        p.makeParser()
+        p.reinit()
+        p.events.clear()
+        del msg[:]
+    return out
 
 
 def run_mode(mode, reads):
     if mode == "plain":
         return run_plain(reads)
-    if mode == "until":
-        return run_respondent(HEAD_UNTIL, reads, True)
-    return run_respondent(HEAD_CHUNKED, reads, False)
+    return run_history(None, [{"mode": mode, "reads": reads}])[0]
 
 
 def run_impl(case):
+    if case["mode"] == "history":
+        return {"conns": run_history(case.get("init"), [{"mode": c["mode"], "reads": [unh(x) for x in c["reads"]]}
+                                                        for c in case["conns"]])}
     return run_mode(case["mode"], [unh(x) for x in case["reads"]])
 
 
@@ -141,7 +168,58 @@ def body_of(case):
     return b"".join(unh(x) for x in case["reads"])
 
 
+def avail_body(mode, wire):
+    """the event-stream bytes a receiver has been given by this prefix of the wire (complete data chunks only)"""
+    if mode != "chunked":
+        return wire
+    body, pos = b"", 0
+    while True:
+        i = wire.find(b"\r\n", pos)
+        if i < 0:
+            return body
+        n = int(wire[pos:i], 16)
+        if n == 0 or len(wire) < i + 2 + n + 2:
+            return body
+        body += wire[i + 2:i + 2 + n]
+        pos = i + 4 + n
+
+
+def oracle_history(case, obs):
+    carry_leid = (case.get("init") or {}).get("leid")
+    carry_retry = (case.get("init") or {}).get("retry")
+    if carry_retry is None:
+        carry_retry = 100
+    whole = run_history(case.get("init"), [{"mode": c["mode"], "reads": [b"".join(unh(x) for x in c["reads"])]}
+                                           for c in case["conns"]])
+    for k, (c, o, w) in enumerate(zip(case["conns"], obs["conns"], whole)):
+        if o["err"] is not None:
+            return f"connection {k}: event stream rejected: {o['err']}"
+        if (o["events"], o["resp_leid"], o["resp_retry"]) != (w["events"], w["resp_leid"], w["resp_retry"]):
+            return (f"connection {k}: result depends on fragmentation: split {(o['events'], o['resp_leid'], o['resp_retry'])} "
+                    f"vs whole {(w['events'], w['resp_leid'], w['resp_retry'])}")
+        if o["init"] != [carry_leid, carry_retry]:
+            return f"connection {k} starts with (leid, retry) = {o['init']}, remembered {[carry_leid, carry_retry]}"
+        wire = b""
+        for j, frag in enumerate(c["reads"]):
+            wire += unh(frag)
+            evs, lastid, retry = sse_ref(avail_body(c["mode"], wire))
+            exp = [lastid if lastid is not None else carry_leid, retry if retry is not None else carry_retry]
+            if o["trace"][j] != exp:
+                return (f"connection {k}, after read {j}: Respondent (leid, retry) = {o['trace'][j]}, but the last id/retry "
+                        f"fields seen so far on any connection give {exp}")
+        evs, lastid, retry = sse_ref(avail_body(c["mode"], wire))
+        if o["events"] != evs:
+            return f"connection {k}: events {o['events']} differ from the stream's events {evs}"
+        carry_leid = lastid if lastid is not None else carry_leid
+        carry_retry = retry if retry is not None else carry_retry
+        if [o["resp_leid"], o["resp_retry"]] != [carry_leid, carry_retry]:
+            return f"connection {k}: after the drop Respondent holds {[o['resp_leid'], o['resp_retry']]}, expected {[carry_leid, carry_retry]}"
+    return None
+
+
 def oracle(case, obs):
+    if case["mode"] == "history":
+        return oracle_history(case, obs)
     reads = [unh(x) for x in case["reads"]]
     whole = run_mode(case["mode"], [b"".join(reads)])
     if _canon(whole) != _canon(obs) and case["mode"] != "chunked":
@@ -236,6 +314,57 @@ def _gen_case(rng):
     return {"mode": mode, "reads": [h(x) for x in K.cut(body, cuts)] if body else [h(b"")]}
 
 
+ID_LESS = [": keep-alive\n\n", "data: no id here\n\n", "retry: 2500\n\n", "event: ping\ndata: p\r\n\r\n", ":\r\r",
+           "data\n\n", "id: a\x00b\ndata: nul id\n\n"]
+
+
+def _gen_conn(rng, idless_first):
+    body = b""
+    if idless_first:
+        for _ in range(rng.choice([1, 1, 2, 3])):
+            body += rng.choice(ID_LESS).encode("utf-8")
+    if rng.random() < 0.75:
+        body += _gen_stream(rng)
+    if not body:
+        body = b": x\n\n"
+    mode = rng.choice(["chunked", "chunked", "until"])
+    cutoff = False
+    if mode == "chunked":
+        pts = sorted(set(rng.randrange(1, len(body)) for _ in range(rng.choice([0, 1, 2, 4, 8])))) if len(body) > 1 else []
+        if idless_first and rng.random() < 0.5:
+            pts = sorted(set(pts + [i + 1 for i in range(len(body) - 1) if body[i:i + 2] in (b"\n\n", b"\r\r")]))
+        chunks = K.cut(body, pts)
+        wire = b"".join(b"%x\r\n" % len(c) + c + b"\r\n" for c in chunks)
+        cutoff = rng.random() < 0.5
+        if not cutoff:
+            wire += b"0\r\n\r\n"
+        elif rng.random() < 0.5:
+            wire = wire[:rng.randrange(1, len(wire) + 1)]       # dropped in the middle of a chunk
+    else:
+        wire = body
+    r = rng.random()
+    cuts = list(range(1, len(wire))) if r < 0.2 and len(wire) < 400 else K._rand_cuts(rng, wire)
+    return {"mode": mode, "reads": [h(x) for x in K.cut(wire, cuts)], "cut": cutoff}
+
+
+def _gen_history(rng):
+    init = {"leid": rng.choice([None, None, "9", "last-\u00e9", ""]), "retry": rng.choice([None, None, 2500, 0])}
+    conns = [_gen_conn(rng, idless_first=(k > 0 or init["leid"] is not None or rng.random() < 0.5))
+             for k in range(rng.choice([1, 2, 2, 3, 4]))]
+    return {"mode": "history", "init": init, "conns": conns}
+
+
+def _hist(init, conns):
+    out = []
+    for mode, chunks, cuts, final in conns:
+        if mode == "chunked":
+            wire = b"".join(b"%x\r\n" % len(c) + c + b"\r\n" for c in chunks) + (b"0\r\n\r\n" if final else b"")
+        else:
+            wire = b"".join(chunks)
+        out.append({"mode": mode, "reads": [h(x) for x in K.cut(wire, cuts)], "cut": not final})
+    return {"mode": "history", "init": init, "conns": out}
+
+
 def _chunked_case(chunks, cuts=None):
     wire = b"".join(b"%x\r\n" % len(c) + c + b"\r\n" for c in chunks) + b"0\r\n\r\n"
     return {"mode": "chunked", "chunks": [h(c) for c in chunks],
@@ -264,6 +393,14 @@ def directed():
     out.append({"mode": "plain", "reads": [h(b"retry: 12\nretry: " + b"1" * 4301 + b"\ndata: x\n\n")]})
     out.append({"mode": "plain", "reads": [h(b"")]})
     out.append({"mode": "until", "reads": [h(b"")]})
+    # resumed streams: the remembered last event id survives id-less chunks (seeded change C15-3), on both body kinds
+    s1 = [b"retry: 1000\n\n", b"id: 3\r\ndata: three\r\n\r\n", b"id: 4\rdata: four\r\r"]
+    s2 = [b": keep-alive\n\n", b"data: resumed, no id yet\n\n", b"id: 5\ndata: five\n\n"]
+    for mode in ("chunked", "until"):
+        out.append(_hist(None, [(mode, s1, [], False), (mode, s2, [], False), (mode, [b": only a comment\n\n"], [], True)]))
+        out.append(_hist(None, [(mode, s1, list(range(1, 90)), False), (mode, s2, list(range(1, 90)), True)]))
+        out.append(_hist({"leid": "77", "retry": 2500}, [(mode, s2[:2], [], True), (mode, [b"retry: 5\n\n"], [3], True)]))
+        out.append(_hist({"leid": "77", "retry": None}, [(mode, [b"id\n\n", b"data: x\n\n"], [], True)]))
     # line-length limit
     long_ok = b"data: " + b"z" * 65530 + b"\r\n\r\n"
     long_bad = b"data: " + b"z" * 65531 + b"\r\n\r\n"
@@ -275,8 +412,8 @@ def directed():
 
 
 def generate(rng, tier):
-    n = 700 if tier == "quick" else 7000
-    return [_gen_case(rng) for _ in range(n)]
+    n, nh = (600, 250) if tier == "quick" else (5500, 2500)
+    return [_gen_case(rng) for _ in range(n)] + [_gen_history(rng) for _ in range(nh)]
 
 
 # ----------------------------------------------------------------------------- Gallina
@@ -290,18 +427,37 @@ def coq_event(e):
         coq_option(e["id"], _u8, "bytes"), _u8(e["name"]), _u8(e["data"]))
 
 
-def to_coq(case, obs):
-    mode = "Sse.MChunked" if case["mode"] == "chunked" else "Sse.MPlain"
-    err = obs["err"] is not None
+def _rtrack(t):
+    return f"({coq_option(t[0], _u8, 'bytes')}, {coq_N(t[1])})"
+
+
+def coq_conn(mode, reads, o):
+    cm = "Sse.MChunked" if mode == "chunked" else "Sse.MPlain"
+    err = o["err"] is not None
+    through_resp = "trace" in o
     return ("{| Sse.c_mode := %s; Sse.c_reads := %s; Sse.c_events := %s; Sse.c_leid := %s; Sse.c_retry := %s; "
-            "Sse.c_err := %s; Sse.c_left := %s |}" % (
-                mode, coq_list([K.coq_hexbytes(x) for x in case["reads"]], "bytes"),
-                coq_list([coq_event(e) for e in obs["events"]], "Sse.event"),
-                coq_option(obs["leid"], _u8, "bytes"), coq_option(obs["retry"], coq_N, "N"),
-                coq_bool(err), K.coq_hexbytes("" if err else obs["left"])))
+            "Sse.c_err := %s; Sse.c_left := %s; Sse.c_init := %s; Sse.c_trace := %s |}" % (
+                cm, coq_list([K.coq_hexbytes(x) for x in reads], "bytes"),
+                coq_list([coq_event(e) for e in o["events"]], "Sse.event"),
+                coq_option(o["leid"], _u8, "bytes"), coq_option(o["retry"], coq_N, "N"),
+                coq_bool(err), K.coq_hexbytes("" if err else o["left"]),
+                coq_option(o["init"] if through_resp else None, _rtrack, "Sse.rtrack"),
+                coq_list([_rtrack(t) for t in o["trace"]] if through_resp else [], "Sse.rtrack")))
+
+
+def to_coq(case, obs):
+    if case["mode"] == "history":
+        return coq_list([coq_conn(c["mode"], c["reads"], o) for c, o in zip(case["conns"], obs["conns"])], "Sse.conn")
+    return coq_list([coq_conn(case["mode"], case["reads"], obs)], "Sse.conn")
 
 
 def nontrivial(case, obs):
+    if case["mode"] == "history":
+        # a resumed connection whose first completed read carries no id while an id is remembered
+        for c, o in zip(case["conns"], obs.get("conns", [])):
+            if o["init"][0] is not None and o["trace"] and any(t[0] == o["init"][0] for t in o["trace"]) and len(o["events"]) >= 1:
+                return True
+        return False
     reads = [unh(x) for x in case["reads"]]
     body = body_of(case)
     kinds = set(re.findall(b"\r\n|\n|\r", body))
@@ -325,6 +481,15 @@ def classify(case, obs, why):
 
 
 def shrink(case):
+    if case["mode"] == "history":
+        conns = case["conns"]
+        for i in range(len(conns)):
+            if len(conns) > 1:
+                yield dict(case, conns=conns[:i] + conns[i + 1:])
+            r = conns[i]["reads"]
+            if len(r) > 1:
+                yield dict(case, conns=conns[:i] + [dict(conns[i], reads=["".join(r)])] + conns[i + 1:])
+        return
     if case["mode"] == "chunked":
         return
     reads = case["reads"]
@@ -335,14 +500,19 @@ def shrink(case):
 
 def distribution(cases, obs):
     modes, nev, term = {}, 0, {"crlf": 0, "lf": 0, "cr": 0}
+    nconn = 0
     for c, o in zip(cases, obs):
         modes[c["mode"]] = modes.get(c["mode"], 0) + 1
+        if c["mode"] == "history":
+            nconn += len(c["conns"])
+            nev += sum(len(x["events"]) for x in o.get("conns", [])) if isinstance(o, dict) else 0
+            continue
         if isinstance(o, dict) and "events" in o:
             nev += len(o["events"])
         b = body_of(c)
         for t in re.findall(b"\r\n|\n|\r", b[:4000]):
             term[{b"\r\n": "crlf", b"\n": "lf", b"\r": "cr"}[t]] += 1
-    return {"modes": modes, "events_delivered": nev, "terminators": term}
+    return {"modes": modes, "events_delivered": nev, "terminators": term, "history_connections": nconn}
 
 
 def extra(tier, ctx):
